@@ -201,8 +201,13 @@ func genValidateME(c *gal.Ctx) {
 		switch {
 		case got.Panic:
 			c.OracleFail(idx, "ValidateMEAgainstManifests panicked: "+got.Msg, siteBG, d)
-		case got.OK && len(dq) > 0 && v != 1 && v != 2:
-			c.OracleFailKnown(idx, "C05-BG-unknown-version-failopen", "Boot Guard verdicts report success for a BootGuard value whose Version is neither 1.0 nor 2.0 although named disqualifying conditions hold", siteBG+":ValidateMEAgainstManifests", d)
+		case v != 1 && v != 2:
+			// no manifest of a known Boot Guard version: nothing can be validated, never a success
+			if !got.OK && got.E1 {
+				c.OracleOK()
+			} else {
+				c.OracleFail(idx, fmt.Sprintf("ValidateMEAgainstManifests reports %+v for a BootGuard value whose Version is neither 1.0 nor 2.0 (disqualifying: %v)", got, dq), siteBG+":ValidateMEAgainstManifests", d)
+			}
 		case got.OK == (len(dq) == 0) && got.E1 == !got.OK:
 			c.OracleOK()
 		default:
@@ -273,35 +278,22 @@ func genCrypto(c *gal.Ctx) {
 			al[i] = uint64(a)
 		}
 		idx := c.Add(kind, fmt.Sprintf("CBpmCrypto %d %d %s %d %d %s", v, nse, gal.UList(al), lsize, sig, got.lit()), d, true)
-		// named disqualifying conditions: the signed IBB digest (list) or the BPM signature use SHA1/Null
+		// named disqualifying conditions: the signed IBB digest - for CBnT: the only digest of the
+		// list - or the BPM signature use SHA1/Null; no SE element / unknown version: nothing to vouch for
 		digestInsecure := false
 		if v == 1 {
 			digestInsecure = len(list) == 0 || insecure(list[0])
 		} else {
-			for _, a := range list {
-				if insecure(a) {
-					digestInsecure = true
-				}
-			}
+			digestInsecure = len(list) == 1 && insecure(list[0])
 		}
-		bad := digestInsecure || insecure(sig)
+		bad := digestInsecure || insecure(sig) || nse == 0 || (v != 1 && v != 2)
 		switch {
-		case got.Panic && nse == 0:
-			c.OracleFailKnown(idx, "C05-SaneBPM-nil-TXTE", "BPM verdicts index SE[0] / dereference TXTE without checking presence", siteBG+":BPMCryptoSecure", d)
 		case got.Panic:
-			c.OracleFail(idx, "BPMCryptoSecure panicked: "+got.Msg, siteBG, d)
-		case (v == 1 || v == 2) && got.OK == !bad && got.E1 == !got.OK:
+			c.OracleFail(idx, "BPMCryptoSecure panicked instead of giving a verdict: "+got.Msg, siteBG+":BPMCryptoSecure", d)
+		case got.OK == !bad && got.E1 == !got.OK:
 			c.OracleOK()
-		case v == 2 && got.OK && digestInsecure && !insecure(sig):
-			c.OracleFailKnown(idx, "C05-BPMCrypto-sha1-digestlist", "BPMCryptoSecure (CBnT) accepts SHA1/Null IBB digests: the guard DigestList.Size < 2 compares the BYTE size of the list, which is never below 4", siteBG+":BPMCryptoSecure", d)
-		case v != 1 && v != 2 && got.OK:
-			if bad {
-				c.OracleFailKnown(idx, "C05-BG-unknown-version-failopen", "BPMCryptoSecure reports success for an unknown Boot Guard version", siteBG+":BPMCryptoSecure", d)
-			} else {
-				c.OracleOK()
-			}
 		default:
-			c.OracleFail(idx, fmt.Sprintf("BPMCryptoSecure: insecure=%v, got %+v", bad, got), siteBG+":BPMCryptoSecure", d)
+			c.OracleFail(idx, fmt.Sprintf("BPMCryptoSecure: insecure=%v (IBB digest %v, signature %v, SE elements %d, version %d), got %+v", bad, digestInsecure, insecure(sig), nse, v, got), siteBG+":BPMCryptoSecure", d)
 		}
 	}
 	for _, v := range []int{1, 2} {
@@ -311,6 +303,9 @@ func genCrypto(c *gal.Ctx) {
 		addBPM("bpmcrypto_no_se", v, 0, nil, 0, 0xB, true)
 	}
 	addBPM("bpmcrypto_sha1_and_sha256", 2, 1, []uint16{0x4, 0xB}, 0, 0xB, true)
+	addBPM("bpmcrypto_null_only", 2, 1, []uint16{0x10}, 0, 0xB, true)
+	addBPM("bpmcrypto_empty_list", 2, 1, nil, 0, 0xB, true)
+	addBPM("bpmcrypto_sha256_and_sha1", 2, 2, []uint16{0xB, 0x4}, 0, 0xB, true)
 	addBPM("bpmcrypto_sha1_size1", 2, 1, []uint16{0x4}, 1, 0xB, false)
 	addBPM("bpmcrypto_sha1_size2", 2, 1, []uint16{0x4}, 2, 0xB, false)
 	addBPM("bpmcrypto_unknown_version", 0, 1, []uint16{0x4}, 0, 0x4, true)
@@ -354,17 +349,14 @@ func genCrypto(c *gal.Ctx) {
 				bad = bad || insecure(a)
 			}
 		}
+		bad = bad || (v != 1 && v != 2)
 		switch {
 		case got.Panic:
 			c.OracleFail(idx, "KMCryptoSecure panicked: "+got.Msg, siteBG, d)
-		case (v == 1 || v == 2) && got.OK == !bad && got.E1 == !got.OK:
-			c.OracleOK()
-		case v != 1 && v != 2 && got.OK && bad:
-			c.OracleFailKnown(idx, "C05-BG-unknown-version-failopen", "KMCryptoSecure reports success for an unknown Boot Guard version", siteBG+":KMCryptoSecure", d)
-		case v != 1 && v != 2 && got.OK:
+		case got.OK == !bad && got.E1 == !got.OK:
 			c.OracleOK()
 		default:
-			c.OracleFail(idx, fmt.Sprintf("KMCryptoSecure: insecure=%v, got %+v", bad, got), siteBG+":KMCryptoSecure", d)
+			c.OracleFail(idx, fmt.Sprintf("KMCryptoSecure: insecure=%v (version %d), got %+v", bad, v, got), siteBG+":KMCryptoSecure", d)
 		}
 	}
 	for _, v := range []int{1, 2, 0} {
@@ -437,16 +429,19 @@ func genSaneBPM(c *gal.Ctx) {
 		if strict && v == 2 && hasTXTE && cf>>5&3 != 2 {
 			dq = append(dq, "strict: memory scrubbing not by S-ACM")
 		}
+		if nse == 0 {
+			dq = append(dq, "BPM has no SE element")
+		}
+		if v == 2 && !hasTXTE {
+			dq = append(dq, "CBnT BPM has no TXT element (S-ACM static PCR extension cannot be established)")
+		}
+		if v != 1 && v != 2 {
+			dq = append(dq, "unknown Boot Guard version")
+		}
 		switch {
-		case got.Panic && (nse == 0 || v == 2 && !hasTXTE):
-			c.OracleFailKnown(idx, "C05-SaneBPM-nil-TXTE", "SaneBPMSecurityProps panics (nil TXTE element / empty SE list) instead of returning a verdict", siteBG+":SaneBPMSecurityProps", d)
 		case got.Panic:
-			c.OracleFail(idx, "SaneBPMSecurityProps panicked: "+got.Msg, siteBG, d)
-		case (v == 1 || v == 2) && got.OK == (len(dq) == 0) && got.E1 == !got.OK:
-			c.OracleOK()
-		case v != 1 && v != 2 && got.OK && len(dq) > 0:
-			c.OracleFailKnown(idx, "C05-BG-unknown-version-failopen", "SaneBPMSecurityProps reports success for an unknown Boot Guard version", siteBG+":SaneBPMSecurityProps", d)
-		case v != 1 && v != 2 && got.OK:
+			c.OracleFail(idx, "SaneBPMSecurityProps panicked instead of giving a verdict: "+got.Msg, siteBG+":SaneBPMSecurityProps", d)
+		case got.OK == (len(dq) == 0) && got.E1 == !got.OK:
 			c.OracleOK()
 		default:
 			c.OracleFail(idx, fmt.Sprintf("SaneBPMSecurityProps: disqualifying %v, got %+v", dq, got), siteBG+":SaneBPMSecurityProps", d)
